@@ -35,7 +35,7 @@ pub fn hazmat(cx: &mut Ctx, args: &Args, rng: &mut Rng) -> i32 {
         }
     }
     // parallel forms: 8 independent blocks and 8 independent keys
-    let npar = (n / 2).max(2);
+    let npar = (n / 2).max(100);
     for t in 0..npar {
         let bl: Vec<Vec<u8>> = if t == 0 {
             // all distinct in every byte position
@@ -56,11 +56,20 @@ pub fn hazmat(cx: &mut Ctx, args: &Args, rng: &mut Rng) -> i32 {
             for j in 0..8 {
                 kl[j] = src[kp[j]].clone();
             }
-            if rng.below(2) == 0 {
-                let (_, bp) = crate::rng::lane_pattern(rng, 8);
+            {
+                // block relations cycle independently of the key relations (all 49 pairs within 98 calls)
+                let (_, bp) = crate::rng::lane_pattern_k(rng, 8, t / 2 + (t / 2) / 7);
                 let src = bl.clone();
                 for j in 0..8 {
                     bl[j] = src[bp[j]].clone();
+                }
+                // near-equal lanes: the same bit of a byte flipped in a few lanes (mostly the top or the bottom bit)
+                if rng.below(2) == 0 {
+                    let bit = [7usize, 7, 0, rng.below(8)][rng.below(4)];
+                    for _ in 0..1 + rng.below(4) {
+                        let (lane, byte) = (rng.below(8), rng.below(16));
+                        bl[lane][byte] ^= 1 << bit;
+                    }
                 }
             }
         }
